@@ -51,12 +51,12 @@ def relmax(a, b, sc):
     return float(np.abs(a - b).max()) / sc
 
 
-def run_history(name, params, F, hist, lam):
+def run_history(name, params, F, hist, lam, Q=None):
     e = gmat.REG[name]
     um = gmat.build(name, params)
     batch = F.shape[2:]
     sv0 = gmat.virgin_state(name, batch)
-    sv = gmat.drive_history(name, um, sv0, F, hist, batch, lam) if e["nstate"] else sv0
+    sv = gmat.drive_history(name, um, sv0, F, hist, batch, lam, Q=Q) if e["nstate"] else sv0
     noarg = e["nstate"] == 0 and e["backend"] != "hand"
     out = um.gradient([F.copy(), None if noarg else sv.copy()])
     P = np.array(out[0], dtype=float).copy()
@@ -71,23 +71,36 @@ def pair_check(ax, case, rec):
     if kind == "jax-vs-tt":
         ej = gmat.REG["jax:" + n]
         rng = np.random.default_rng(case["F"]["fseed"])
-        F = gmat.make_F(rng, (2, 2), ej["lam"], sep=True)
+        Qc = gmat.coaxial_Q(case["F"], (2, 2)) if ej["nstate"] else None
+        F = gmat.make_F(rng, (2, 2), ej["lam"], sep=True, Q=Qc)
         rec.nontrivial = True
-        Pj, Aj, svj, snj = run_history("jax:" + n, case["params"], F, case["F"]["hist"], ej["lam"])
-        Pt, At, svt, snt = run_history("tt:" + n, case["params"], F, case["F"]["hist"], ej["lam"])
+        Pj, Aj, svj, snj = run_history("jax:" + n, case["params"], F, case["F"]["hist"], ej["lam"], Q=Qc)
+        Pt, At, svt, snt = run_history("tt:" + n, case["params"], F, case["F"]["hist"], ej["lam"], Q=Qc)
         sc = float(np.abs(At).max())
         reg = max(ej["reg"], gmat.REG["tt:" + n]["reg"])
-        tolP = 20 * reg if reg else 1e-8
+        tolP = 20 * reg * max(1.0, gmat.reg_scale(n, case["params"]) / sc) if reg else 1e-8
         tolA = 5e-2 if reg else 1e-7
         if n in ("extended_tube", "storakers", "miehe_goektepe_lulei") and not reg:
             tolP, tolA = 1e-6, 1e-5  # tensortrax perturbs coincident eigenvalues by sqrt(eps)
         tag = ""
         if ej["nstate"]:
-            tag = "@history" if not np.array_equal(svt, gmat.virgin_state("tt:" + n, (2, 2))) else "@virgin"
+            virgin = np.array_equal(svt, gmat.virgin_state("tt:" + n, (2, 2)))
+            tag = "@virgin" if virgin else "@history-coaxial" if Qc is not None else "@history"
             rec.close("state-before" + tag, relmax(svj, svt, max(1.0, float(np.abs(svt).max()))), max(tolP, 1e-8))
             rec.close("state-after" + tag, relmax(snj, snt, max(1.0, float(np.abs(snt).max()))), max(tolP, 1e-8))
         rec.close("stress" + tag, relmax(Pj, Pt, sc), tolP, {"params": case["params"]})
-        rec.close("elasticity" + tag, relmax(Aj, At, sc), tolA, {"params": case["params"]})
+        if tag == "@history-coaxial":
+            # coaxial history: the elasticity tensors are compared along the three stretch directions, in which the
+            # perturbed states stay coaxial; the full tensors go to the general bucket
+            worst = 0.0
+            for k in range(3):
+                qq = np.stack([np.outer(Qc[i][:, k], Qc[i][:, k]) for i in range(len(Qc))], -1).reshape(3, 3, 2, 2)
+                dF = np.einsum("ij...,jk...->ik...", F, qq)
+                worst = max(worst, relmax(np.einsum("ijkl...,kl...->ij...", Aj, dF), np.einsum("ijkl...,kl...->ij...", At, dF), sc))
+            rec.close("elasticity along the principal stretches" + tag, worst, tolA, {"params": case["params"]})
+            rec.close("elasticity@history", relmax(Aj, At, sc), tolA, {"params": case["params"]})
+        else:
+            rec.close("elasticity" + tag, relmax(Aj, At, sc), tolA, {"params": case["params"]})
     elif kind == "hand-vs-ad":
         import felupe.constitution.tensortrax as tt
 
